@@ -78,6 +78,8 @@ def _compare(out, label, g1, g2, dtype, scale):
                          f"reference set -> {'None' if b.grad is None else 'set'}"):
             continue
         if a.grad is not None:
+            if not out.check(tuple(a.grad.shape) == tuple(b.grad.shape), f"{label}:grad-shape", f"leaf {i}"):
+                continue
             err = float((a.grad.double() - b.grad.double()).abs().max()) if a.grad.numel() else 0.0
             out.within(err, tol, f"{label}:values-differ", f"leaf {i}: {a.grad.tolist()} vs {b.grad.tolist()}")
 
